@@ -115,6 +115,11 @@ def step (st : St) (ws : List String) : St × String :=
     match bytesOfHex h with
     | some bs => (.file { data := bs, pos := 0 } true, "ok")
     | none => (st, "bad-op")
+  | .closed, ["open", "filew", h] =>
+    -- the same file opened "w+": truncated, an empty byte array with the cursor at 0
+    match bytesOfHex h with
+    | some _ => (.file { data := [], pos := 0 } true, "ok")
+    | none => (st, "bad-op")
   | .closed, ["open", "ostream", n] =>
     match n.toNat? with
     | some k => (.os { ob := OBuf.create k, sink := { data := [], cur := 0 }, idx := 0,
